@@ -1,22 +1,30 @@
 """C04 configuration for bin/check."""
 CFG = dict(
-    level="proof", pfile="P_C04.v", rmod="R_C04", judge="judge_C04", shard=150,
+    level="proof", pfile="P_C04.v", rmod="R_C04", judge="judge_C04", shard=110,
     level_text="Theorems (all sample lists over any entry key type, all kept sets, int64 wrap-around explicit): the graph's flat, cum, "
                "edge weight and their mean divisors equal the definition sums over samples (leaf / occurs-anywhere-once / adjacency-once), "
                "call-tree numbers equal the per-path sums, the report total equals the sum of absolute values (base-only when diffing), "
                "printers project the graph's FlatValue/CumValue/WeightValue; model tied to the code by differential cases over "
-               "granularity x noinlines x sample_index x mean x call_tree x tagroot/tagleaf x 7 output forms.",
+               "granularity x noinlines x sample_index x mean x call_tree x tagroot/tagleaf x 7 output forms. End-to-end layer: every text form is "
+               "produced by driver.PProf from a flag set (parseFlags, Fetcher plug-in, report, plugin.Writer), an interactive session "
+               "(assignments, `cmd N >file`) or the web /top handler; the glue is modelled (command overrides of nodecount/trim, legacy "
+               "sample-index flags, entry-point sample_index rules, web top = 500 entries, trimPath on every graph build) with theorems "
+               "explicit_nodecount_kept, notrim_switches_limits_off, legacy_keeps_explicit_index.",
     level_note="Entry identity (nodeInfo + Aggregate) is part of the model and is tied by correspondence only; numbers are parsed back out "
                "of -top/-tree/-dot/-callgrind/-traces text; filepath.Clean, DOT escaping, float percentages, tags/nodelets are outside the model.",
     rule="inputs = (profile, options, output form): hand-made stack shapes (recursion, repeated inlined frames, shared/unsymbolized "
          "locations, empty stacks, cancelling values, diff-base labels, tag roots) x all granularities, plus random valid profiles x "
          "sampled option combinations x forms; distinct = sha256 of the input term; non-trivial = the profile has a recursive or an "
-         "inlined (multi-line) stack",
+         "inlined (multi-line) stack. End-to-end streams: an 83-entry profile (more than the default limit of 80) with nodecount "
+         "0 / not given / trim=false for tree, dot, top through cli, session (own numeric argument) and web; option combinations x "
+         "{cli, session with decoy assignments and a previous command, web /top}; legacy -inuse_space/-mean_delay... flags",
     spec_what="a flat/cum/edge/total number in some output form differs from its definition over the samples",
     trusted_base=["text parsers of the harness (numbers parsed back out of report text)",
                   "entry identity (graph.nodeInfo, profile.Aggregate) modelled, not proved against a spec",
                   "measurement.ScaledLabel on numeric tag values shipped as an answer table",
-                  "filepath.Clean / trimPath are the identity on the generated (clean) paths"],
+                  "filepath.Clean is the identity on the generated (clean) paths",
+                  "plug-in stubs of the end-to-end layer (Fetcher returning the serialized profile, no-op symbolizer, capturing Writer/UI)",
+                  "sample type names are distinct (CompatibilizeSampleTypes on equal names is C07's subject)"],
     assumptions=["sample values of text-form cases are small integers in unit 'count' so that they print as raw integers",
                  "sort.Sort returns the unique sorted order (node orders are total on the generated names: no spaces in names, C08/F8)"],
  )
